@@ -72,6 +72,10 @@ CHECKS = {
    technique="deterministic simulation: real discovery tables, RLPx servers and sub-protocol handler on in-memory transports under the fake clock with injected loss-free but hostile traffic (crafted/signed datagrams, byte flips/drops/inserts/closes/stalls at chosen stream offsets, damaged protocol messages, failing payload readers); crash-of-process, wedge, prefix-integrity and size-limit oracles",
    text="(a) Two complete p2p.Servers perform the real encryption and protocol handshakes over a link that fragments the stream and damages one byte position: what the receiver's protocol is handed must be a byte-identical prefix of what the sender wrote, fault-free sessions deliver everything, and after every timeout no half-open session remains. (b) Real discovery tables receive attacker datagrams of 11 kinds including correctly hashed and signed ones with short, malformed or oversized bodies: no crash (a panic on a node goroutine kills the worker and the driver reports the plan as a process-crash violation) and a fresh valid ping is still answered within the reply timeout. (c) The real aqua handler gets a (possibly broken) status handshake and damaged messages of every code: no crash, no payload byte of a message announcing more than the 10 MiB limit is read, writes are consumed or the peer is dropped within 30 simulated seconds, and the handler returns within 60 s after the peer closes.",
    note="Trusted: synctest, harness, own packet/RLP crafting. Interleaving inside the servers between quiescence points is the runtime's (one P per worker); the oracles hold under any interleaving. Attribution of mutated datagrams to keys and 16 MiB frames are only in the thorough tier's reach; full-stack multi-node convergence under attack is not implemented."),
+ "C18": dict(engine="rpcsim", category="exploration", design_ref="§3 C18",
+   technique="whole-node simulation per configuration: the real node (node.Node + aqua service, all four RPC servers, on-disk keystore) is started in a child process under each assignment of the opt-in variables and simulated clients call every method of every API object on every transport in seeded order; signatures are observed at the keystore entry points through a guarded hook; configuration grid enumerated completely, seeded mixtures afterwards",
+   text="One case = one deployment in its own child process (the opt-in variables are read once at start-up): keystore with an unlocked and a locked account whose keys the harness also holds, one pending transaction per account in the pool, in-proc + IPC + HTTP + WS endpoints (module whitelists naming every namespace, or default, or WSExposeAll; optionally stopped and restarted through admin_stopRPC/startRPC/stopWS/startWS first). Clients first issue the well-known signing calls in 4 account/passphrase roles on each transport, then sweep every exported method of every API object the node reports (by reflection, so renamed or newly exposed methods are called too) with arguments synthesised from the Go signatures that name the keystore accounts, passphrases and the pending transactions. Oracle: a signature observed during a call on transport T is a violation unless T's variable or UNSAFE_RPC_SIGNING is set to a truthy value; a signature outside any call is a violation; on an opted-in transport personal_sign / aqua_sign / aqua_signTransaction / personal_signTransaction must actually sign. The first 64 cases enumerate all 32 set/unset assignments (and again with explicit negative spellings and restarts).",
+   note="No fault or schedule dimension: the property quantifies over configurations and inputs, calls are sequential on real loopback sockets outside a synctest bubble (the only nondeterminism, port choice, is retried). Not deployed: the clique development chain, where block sealing signs by design once mining is on. admin_shutdown is not called. Trusted: harness, hook placement (after key lookup/decryption, before the ECDSA operation)."),
 }
 
 def main():
@@ -91,6 +95,7 @@ def main():
         {"name": "schedsim", "path": "sim/schedsim", "serves_properties": [p for p in sorted(CHECKS) if p in ("C13","C14","C15","C16","C19")], "kind_free_text": "gate scheduler: real goroutines parked on channels, one released at a time from the plan, synctest.Wait as quiescence barrier"},
         {"name": "storesim", "path": "sim/storesim", "serves_properties": [p for p in sorted(CHECKS) if p in ("C09","C10","C20")], "kind_free_text": "model-based operation histories over trie / StateDB / key files on the simulated disk"},
         {"name": "netsim", "path": "sim/netsim", "serves_properties": [p for p in sorted(CHECKS) if p in ("C17",)], "kind_free_text": "in-memory datagram network, buffered stream connections with a fault-injecting link, attacker packet crafting; real discovery, RLPx and aqua handler"},
+        {"name": "rpcsim", "path": "sim/rpcsim", "serves_properties": [p for p in sorted(CHECKS) if p in ("C18",)], "kind_free_text": "complete node with four RPC transports in a child process per opt-in configuration; reflective method sweep; keystore signing observer"},
         {"name": "refmodel", "path": "sim/refmodel", "serves_properties": sorted(CHECKS), "kind_free_text": "independent reference models (RLP, Merkle-Patricia root and traversal, ...)"},
      ],
      "checks": [],
